@@ -30,6 +30,7 @@ class Models:
         self.table = {}
         self.allow_havoc_mut = set()
         self.opaque_bodies = set()     # crate-local callees deliberately treated as havoc (listed in evidence)
+        self.body_hooks = {}           # full body name -> python replacement (abstraction knob; listed in evidence)
         self.havoc_overrides = {}
         register_core(self)
         from . import models_async
@@ -458,6 +459,28 @@ def register_core(M):
             return M.none(dty)
         return ex.call_value(a[1], [M.payload(ex, o, fty=M.opt_payload_ty(o.ty))])
 
+    @reg('Option::flatten')
+    def _(ex, info, a, dty):
+        o = ex.materialize(a[0])
+        if not M.is_some(ex, o):
+            return M.none(dty)
+        return M.payload(ex, o, fty=dty)
+
+    @reg('Option::xor')
+    def _(ex, info, a, dty):
+        o1, o2 = ex.materialize(a[0], dty), ex.materialize(a[1], dty)
+        s1, s2 = M.is_some(ex, o1), M.is_some(ex, o2)
+        if s1 and not s2:
+            return o1.with_discr(1)
+        if s2 and not s1:
+            return o2.with_discr(1)
+        return M.none(dty)
+
+    @reg('Option::and')
+    def _(ex, info, a, dty):
+        o = ex.materialize(a[0])
+        return a[1] if M.is_some(ex, o) else M.none(dty)
+
     @reg('Option::or')
     def _(ex, info, a, dty):
         o = ex.materialize(a[0], dty)
@@ -632,6 +655,8 @@ def register_core(M):
     def _(ex, info, a, dty):
         st = head(info['self_ty'] or '')
         v = ex.materialize(a[0])
+        if info['key'] == 'AsRef::as_ref' and 'str' in generic_args(info['trait'] or ''):
+            return v          # &String / &&String / &str viewed as &str: same symbolic string
         if info['key'].startswith('Pin::'):
             if info['method'] == 'as_mut':
                 # Pin<&mut Pin<P>> -> Pin<&mut T>: reborrow
